@@ -48,7 +48,8 @@ def catalogue():
     c["url"] = ({"k": "Url"}, ["http://x", "a:b"], ["nourl", "://x", 1])
     c["bytes"] = ({"k": "Bytes"}, [Y(b"ab"), "cd"], [5, ["ab"], BA(b"ab")])
     c["file"] = ({"k": "File", "o": {"exists": False}}, ["no-such-file.txt", "other-missing"], [".", 5])
-    c["challenge"] = ({"k": "Challenge", "o": {"hash_algorithm": "md5"}}, ["pw", "pw2"], [5, ["pw"]])
+    c["challenge"] = ({"k": "Challenge", "o": {"hash_algorithm": "md5"}},
+                      ["pw", {"$": "dv", "alg": "md5", "secret": "pw3", "salt_len": 16}, {"$": "dv", "alg": "md5", "secret": "pw4", "salt_len": 37}, "pw2"], [5, ["pw"]])      # (first and last stay tree data)
     c["loglevel"] = ({"k": "LogLevel", "o": {"default": "info"}}, ["debug", " WARNING "], ["trace", 3])
     c["appmode"] = ({"k": "AppMode", "o": {"default": "production", "create_helpers": False}}, ["development", " PRODUCTION "], ["x", 5])
     c["any"] = ({"k": "Any"}, [1, "a", [1, D(("k", 2))]], [])
